@@ -75,7 +75,7 @@ def _insert(node, patch_):
 
     if not _is_int(index):
         raise PatchError("Index is not a number: %s %s" % (node.name, patch_))
-    index = int(index)
+    index = max(-len(node.members), min(len(node.members), int(index)))
 
     node.members.insert(index, model.StructMember(name, tp))
     return node
